@@ -39,12 +39,16 @@ package sign
 //@   assert_at[C09] NewSession "helper, err := round.NewSession(info, sessionID, nil)": arg0.ProtocolID == "doerner/sign" && arg0.FinalRoundNumber == 2
 //@   ensures[C20] result1 != nil ==> result0 == nil
 //@   ensures[C20] result1 == nil ==> (result0 != nil && config != nil && config.Public != nil && config.SecretShare != nil && config.Setup != nil && len(hash) > 0)
+// (induction on the session object) the first round starts from the state invariant its methods assume
+//@   ensures result1 == nil ==> (typeis(result0, *round1R) && s1rok(result0.(*round1R)))
 //@ func StartSignSender$1
 //@   nopanic[C20]
 // (C09) the session tag is derived under the signing protocol's OWN identifier -- distinct from every other protocol's
 //@   assert_at[C09] NewSession "helper, err := round.NewSession(info, sessionID, nil)": arg0.ProtocolID == "doerner/sign" && arg0.FinalRoundNumber == 2
 //@   ensures[C20] result1 != nil ==> result0 == nil
 //@   ensures[C20] result1 == nil ==> (result0 != nil && config != nil && config.Public != nil && config.SecretShare != nil && config.Setup != nil && len(hash) > 0)
+// (induction on the session object) the first round starts from the state invariant its methods assume
+//@   ensures result1 == nil ==> (typeis(result0, *round1S) && s1sok(result0.(*round1S)))
 
 // ---- round state invariants and acceptance gates of the signing rounds (C03, C05)
 //@ pred shok(h *round.Helper) := h != nil && h.hash != nil && h.hash.h != nil && h.info.Group != nil && typeis(h.info.Group, curve.Secp256k1) && !held(h.mtx)
